@@ -3,12 +3,14 @@
 A  TLC on Svs: nodes {self,n1,n2}, sequence numbers 0..MaxSeq, *every* received packet over the
    bound (all partial vectors, over-claiming, entries without node id / without sequence number
    in both encoding orders, vectors naming a node twice with different sequence numbers, undecodable
-   Interests), Publish bursts, TimerFire, Tick, event
+   Interests, vectors in a non-canonical encoding - kind "svl"), Publish bursts, TimerFire, Tick, and
+   PublishThenRecv (publications and then a packet handled before the timer task has run: the two critical
+   sections inside one loop iteration; the announcement must be made within the step), event
    sequences of ANY length (the state space is finite, so no event bound is needed; this subsumes
    the "up to 5/7 events" of DESIGN 6). Mode "open" (what C18 leaves open is nondeterministic)
    and Mode "impl" (open choices resolved as sync.py does). All properties are action properties;
    vacuity = every action taken + every witness transition kind seen. The two named deviations
-   must each be *caught* by the properties (spec-level sensitivity). One more run keeps the history
+   (aggLocal, noSeq, postponed) must each be *caught* by the properties (spec-level sensitivity). One more run keeps the history
    variable mem (the decodable packet most recently ignored / accepted): the same vector again, after
    the state it is judged against has changed (witnesses AgainAccepted / AgainOutdated).
 B  the Mode "impl" state graph (TLC dump), with both deviations enabled as alternative edges, is
@@ -27,11 +29,22 @@ C  random histories (5 nodes, ~100 events, sequence numbers within 20 of a base 
    sync group that has state before the instance is created and whose events interleave (instance
    independence), and a peer of the same group that is fed every sync Interest the instance emits,
    as it is on the wire (loop-back: the peer must accept it and merge exactly the announced vector).
+   PublishThenRecv events are part of the histories (svskit.Scenario._validator realises the order through the
+   real receive path). A sweep delivers every member of the byte-level packet classes: "cut" (the encoding of a
+   vector - minimal, or with the numbers of one kind in a 3 / 5 / 9-octet form - cut at every octet: must be
+   ignored entirely and quietly) and "svl" (non-minimal numbers, trailing octets, unknown elements: read as the
+   vector or ignored, never an exception); in B and C the packets of these kinds take the members in turn.
 
 Besides local_sv / emitted vectors / callback count the projection has the values returned by
 new_data() (Svs!PublishedSeqs) and local_sv as seen inside the callback (Svs!CallbackSaw). The
 group prefix has four components (an empty one, a typed one, one of type 65536); stimuli are
 encoded and emitted vectors decoded by the executor's own TLV code, not by the library's model.
+
+Every SvsInst the driver creates gets its group prefix and node id in the next pair of representations (svskit.REPS:
+component list / tuple / with str elements, URI string, encoded Name in bytes / bytearray / writable or read-only
+memoryview, list of bytearray components); writable buffers are overwritten after the constructor returned.
+An exception out of the constructor / start(), or an instance whose public base_prefix / self_node_id follows the
+overwritten buffer, is a finding C18/SvsInst/Init/...; the history then goes on with an instance made from plain lists.
 
 Findings carry the signature of the named deviation that explains them
 (C18/SvsInst/<action>/<property>/<deviation>) or, if none does,
@@ -48,28 +61,38 @@ from harness.svskit import Scenario, NOSEQ, NOID, ROOTID
 NODES3 = ['self', 'n1', 'n2']
 NODES5 = ['self', 'n1', 'n2', 'n3', 'n4']
 PROPS = ['Monotone', 'EntrywiseMax', 'OverclaimIgnored', 'MissingIffRaised', 'PublishEmitsFullVector',
-         'HeardIsMerge', 'SuppressionDecision', 'EmitsOnlyLocal', 'OutdatedStartsSuppression', 'CallbackPublishEmits']
+         'HeardIsMerge', 'SuppressionDecision', 'EmitsOnlyLocal', 'OutdatedStartsSuppression', 'CallbackPublishEmits',
+         'PublishThenRecvMerges', 'PublishThenRecvAnnounces']
 INVS = ['TypeOK', 'OwnEntry', 'SteadyForgets']
 WITNESSES = ['SupEmit', 'SupNoEmit', 'OverclaimWouldRaise', 'Incomparable', 'OlderNoCallback', 'DamagedAccepted',
              'DamagedRejected', 'UndecodableInSup', 'Burst', 'PublishInSup', 'SteadyEmit', 'HeardInSup', 'EnterSup',
              'ActRecvSV', 'ActPublish', 'ActTimerFire', 'ActTick', 'OutdatedZero',
              'CallbackPublish', 'CallbackPublishInSup', 'CallbackPublishTwice',
-             'DupAccepted', 'DupOverclaimHidden', 'DupNotMax', 'AgainAccepted', 'AgainOutdated']
+             'DupAccepted', 'DupOverclaimHidden', 'DupNotMax', 'AgainAccepted', 'AgainOutdated',
+             'ActPublishThenRecv', 'PTRNotOutdated', 'PTROutdated', 'PTRRaises', 'PTRCallbackPublish',
+             'PTRInSup', 'PTRCaughtUp', 'PTRStillOverclaims', 'PTRIgnored', 'LenientAccepted', 'LenientRejected']
 DUP_WITNESSES = ('DupAccepted', 'DupOverclaimHidden', 'DupNotMax')      # need a packet alphabet with duplicates
 AGAIN_WITNESSES = ('AgainAccepted', 'AgainOutdated')                    # need Remember = TRUE
+LEN_WITNESSES = ('LenientAccepted', 'LenientRejected')                  # need a packet alphabet with kind "svl"
+PTR_WITNESSES = tuple(x for x in WITNESSES if x.startswith('PTR') or x == 'ActPublishThenRecv')    # need MaxPre > 0
 DEV_SIG = {'devAgg': ('C18/SvsInst/TimerFire/SuppressionDecision/devAgg',
                       'suppression period in which a second vector was heard ends without a sync Interest although '
                       'local_sv is newer than the merge of the vectors heard (aggregate() merges with local_sv)'),
            'devNoSeq': ('C18/SvsInst/RecvSV/MissingIffRaised/devNoSeq',
                         'vector with an entry that has no sequence number: entries before it are merged into '
-                        'local_sv, then TypeError - on_missing_data is not called although an entry was raised')}
+                        'local_sv, then TypeError - on_missing_data is not called although an entry was raised'),
+           'devPostponed': ('C18/SvsInst/PublishThenRecv/PublishThenRecvAnnounces/devPostponed',
+                            'a sync Interest is handled after new_data() returned and before the timer task ran (same '
+                            'loop iteration): sync_handler overwrites the next_sync_timing = 0 that new_data() set - the '
+                            'publication is not announced promptly but a sync interval / suppression period later')}
 
 
 MAX_DIAG = 40           # rejected executions diagnosed field by field per judge() call
 MAX_SUSPECTS = 40       # stage B stops after this many executions no graph successor explains
 MAX_JUDGED = 400        # executions handed to one judge() call in stage B (shortest first)
 LAST_JUDGE = {'unexplained': 0, 'accepted': 0}   # of the last judge() call: not explained at all / accepted by the pure spec
-DEV_OF = {'devAgg': 'aggLocal', 'devNoSeq': 'noSeq'}     # choice name -> member of the constant Dev
+DEV_OF = {'devAgg': 'aggLocal', 'devNoSeq': 'noSeq', 'devPostponed': 'postponed'}     # choice name -> member of the constant Dev
+ALL_DEVS = ('aggLocal', 'noSeq', 'postponed')
 
 
 def raised_sig(ev):
@@ -77,8 +100,12 @@ def raised_sig(ev):
     exc = ev.get('post', {}).get('raised')
     if not exc:
         return None
-    return ('C18/SvsInst/RecvSV/%s/raised:%s' % (ev['p']['k'], exc),
-            'an undecodable sync Interest (%s) is not ignored quietly: %s escapes sync_handler' % (ev['p']['k'], exc))
+    member = ''
+    if ev['p']['k'] == 'cut' and ev.get('x') is not None:
+        comp, desc = svskit.WORLD.cuts()[ev['x']]
+        member = ': state-vector component %s = vector %s' % (comp.hex(), desc)
+    return ('C18/SvsInst/%s/%s/raised:%s' % (ev['a'], ev['p']['k'], exc),
+            'an undecodable sync Interest (%s%s) is not ignored quietly: %s escapes sync_handler' % (ev['p']['k'], member, exc))
 
 
 def finding(ctx, sig, what, obj):
@@ -94,6 +121,12 @@ def finding(ctx, sig, what, obj):
             cur.update(what=what, obj=obj, size=size)
 
 
+def report_faults(ctx, faults):
+    """what went wrong when an SvsInst was created from some representation of its two names (Scenario.init_faults)"""
+    for tail, what, obj in faults:
+        finding(ctx, 'C18/SvsInst/Init/%s' % tail, what, obj)
+
+
 def flush(ctx):
     for sig, f in sorted(ctx.extra.pop('_findings', {}).items()):
         for _ in range(f['n']):
@@ -101,13 +134,14 @@ def flush(ctx):
 
 
 def consts(nodes, maxseq, packets, mode, dev, maxt, init=(0,), burst=2, sup=1, sync=9, jit=(0, 1), tick_ends=False,
-           hint=False, react=2, remember=False):
+           hint=False, react=2, remember=False, pre=0, prepackets=None):
     return {'NodeOrder': '<- Nodes%d' % len(nodes), 'MaxSeq': maxseq,
             'InitSeqs': '{%s}' % ','.join(map(str, init)),
             'Packets': packets if packets.startswith('{') else '<- %s' % packets,
+            'PrePackets': packets if packets.startswith('{') else '<- %s' % (prepackets or packets),
             'Mode': '"%s"' % mode, 'Dev': '{%s}' % ','.join('"%s"' % d for d in dev),
             'SupBase': sup, 'SyncBase': sync, 'Jitter': '{%s}' % ','.join(map(str, jit)),
-            'MaxT': maxt, 'MaxBurst': burst, 'MaxReact': react, 'MaxEv': 0,
+            'MaxT': maxt, 'MaxBurst': burst, 'MaxReact': react, 'MaxPre': pre, 'MaxEv': 0,
             'TickEnds': 'TRUE' if tick_ends else 'FALSE', 'UseHint': 'TRUE' if hint else 'FALSE',
             'Remember': 'TRUE' if remember else 'FALSE'}
 
@@ -127,8 +161,13 @@ def stage_a(ctx):
         name = 'Svs_A_%s_%s_%d' % (mode, pk, ms)
         cfg = os.path.join(tlc.BUILD, name + '.cfg')
         react = ctx.pick(1, 2)      # publications inside the missing-data callback (quick: B/C also cover 1 / 2)
-        tlc.write_cfg(cfg, constants=consts(nodes, ms, pk, mode, (), maxt, init=init, react=react, remember=remember),
-                      invariants=INVS, properties=PROPS + ['Witnesses'], view='View')
+        # publications in the loop iteration in which a packet is then handled (PublishThenRecv); the MaxSeq = 3 runs
+        # take one, and the replay alphabet for the packet (measured: 4 x the transitions otherwise)
+        pre = ctx.pick(1, 2) if ms < 3 else 1
+        tlc.write_cfg(cfg, constants=consts(nodes, ms, pk, mode, (), maxt, init=init, react=react, remember=remember, pre=pre,
+                                            prepackets='PacketsPre' if ctx.quick and mode == 'impl' else
+                                            pk if ms < 3 or pk == 'PacketsPlain' else 'PacketsReplay'),
+                      invariants=INVS, properties=PROPS + ['Witnesses'], view='ViewA')
         r = tlc.run('SvsMC', cfg, workers=w, heavy=not ctx.quick, tag=name)
         ctx.add_tlc('Svs exhaustive mode=%s packets=%s nodes=%d MaxSeq=%d%s, unbounded events' % (
             mode, pk, len(nodes), ms, ', last ignored / accepted packet remembered' if remember else ''), r)
@@ -142,16 +181,19 @@ def stage_a(ctx):
             want = AGAIN_WITNESSES
         else:
             want = [x for x in WITNESSES if x not in AGAIN_WITNESSES
-                    and not (pk == 'PacketsPlain' and (x.startswith('Damaged') or x in DUP_WITNESSES))
+                    and not (pk == 'PacketsPlain' and (x.startswith('Damaged') or x in DUP_WITNESSES + LEN_WITNESSES))
+                    and not (pre == 0 and x in PTR_WITNESSES)
                     and not (react < 2 and x == 'CallbackPublishTwice')]
         miss = [x for x in want if x not in seen]
         if miss:
             raise tlc.MachineryError('vacuous: witness transitions never seen in %s: %s' % (name, miss))
     # the properties must reject each named deviation (otherwise they could not see the findings)
-    for dev, expect in (('aggLocal', ('SuppressionDecision',)), ('noSeq', ('MissingIffRaised', 'EntrywiseMax'))):
+    for dev, expect in (('aggLocal', ('SuppressionDecision',)), ('noSeq', ('MissingIffRaised', 'EntrywiseMax')),
+                        ('postponed', ('PublishThenRecvAnnounces',))):
         cfg = os.path.join(tlc.BUILD, 'Svs_A_dev_%s.cfg' % dev)
-        tlc.write_cfg(cfg, constants=consts(NODES3, 2, 'PacketsNoDup', 'open', (dev,), 1, react=0), invariants=INVS,
-                      properties=PROPS, view='View')
+        tlc.write_cfg(cfg, constants=consts(NODES3, 2, 'PacketsNoDup', 'open', (dev,), 1, react=0,
+                                            pre=1 if dev == 'postponed' else 0), invariants=INVS,
+                      properties=PROPS, view='ViewA')
         r = tlc.run('SvsMC', cfg, workers=w, heavy=False, tag='Svs_A_dev')
         ctx.add_tlc('Svs with deviation %s (must violate %s)' % (dev, '/'.join(expect)), r)
         if r.violated not in expect:
@@ -176,6 +218,9 @@ def edge_event(act, args):
         return {'a': act, 'n': args[0], 'j': args[1]}, 'norm'
     if act == 'Tick':
         return {'a': act, 'd': args[0]}, 'norm'
+    if act == 'PublishThenRecv':        # (n, p, j, handler choice, r, announcement choice)
+        return ({'a': act, 'n': args[0], 'p': jpacket(args[1]), 'j': args[2], 'r': args[4]},
+                args[5] if args[5].startswith('dev') else args[3])
     raise ValueError(act)
 
 
@@ -183,8 +228,9 @@ def stim_key(ev):
     return json.dumps(ev, sort_keys=True)
 
 
-def proj_state(st, pre=None):
-    """projection of graph state st; with the state before the step, also Svs!PublishedSeqs / Svs!CallbackSaw"""
+def proj_state(st, pre=None, pn=0):
+    """projection of graph state st; with the state before the step, also Svs!PublishedSeqs / Svs!CallbackSaw
+    (pn: publications made in the step before the packet was handled - PublishThenRecv)"""
     p = {'local': dict(st['local']), 'out': [dict(v) for v in seq(st['out'])] if st['out'] else [],
          'missed': st['missed'], 'state': st['state'], 'timer': st['timer'], 'seq': st['selfSeq'],
          'ret': [], 'cbsaw': []}
@@ -192,7 +238,7 @@ def proj_state(st, pre=None):
         p['ret'] = list(range(pre['selfSeq'] + 1, st['selfSeq'] + 1))
         if st['missed'] == 1:
             saw = dict(st['local'])
-            saw['self'] = pre['selfSeq']
+            saw['self'] = pre['selfSeq'] + pn
             p['cbsaw'] = [saw]
     return p
 
@@ -227,7 +273,7 @@ def nontrivial(evs):
     for e in evs:
         if e['a'] == 'TimerFire' and prev == 'Suppress':
             return True
-        if e['a'] == 'RecvSV' and packet_class(e['p']) != 'plain':
+        if 'p' in e and packet_class(e['p']) != 'plain':
             return True
         if e['a'] == 'Publish' and e['n'] > 1:
             return True
@@ -265,12 +311,14 @@ class PairRun:
         self.init_diff = None
         self.raised = []               # (who, event number, sig, what)
         self.bg = []
+        self.faults = []               # Scenario.init_faults of the instances of this run
         if first_cfg is not None:
             if live:
                 self.first = Scenario(nodes, init_seq=first_cfg['init'], rstep=rstep, world=svskit.SIBLING, quiet=True)
             else:
                 self.first = Scenario(nodes, init_seq=first_cfg['init'], sup_ticks=sup, sync_ticks=sync, rstep=rstep,
                                       j0=first_cfg['t0'] - self.base)
+            self.faults += self.first.init_faults
 
     def start_main(self):
         self.main_after = len(self.schedule)
@@ -281,6 +329,7 @@ class PairRun:
         cfg = self.main_cfg
         self.main = Scenario(self.nodes, init_seq=cfg['init'], sup_ticks=self.sup, sync_ticks=self.sync,
                              rstep=self.rstep, j0=cfg['t0'] - self.base, host=self.first if self.live else None)
+        self.faults += self.main.init_faults
         obs = self.main.post()
         d = diff(obs, expected_init(self.nodes, cfg['init'], cfg['t0']), C18_FIELDS + SYNC_FIELDS)
         if d:
@@ -289,6 +338,7 @@ class PairRun:
             # a peer in the group of `main` (own application and face, same loop): loop-back of main's Interests
             self.peer = Scenario(self.nodes + ['a'], rstep=self.rstep, world=svskit.PEER, quiet=True,
                                  host=self.main, own_app=True)
+            self.faults += self.peer.init_faults
             self.peer.post()
         return obs
 
@@ -306,7 +356,9 @@ class PairRun:
         sc = self.first if who == 'first' else self.main
         ev = {k: v for k, v in ev.items() if k != 'post'}
         post = sc.apply(ev)
-        if ev['a'] == 'RecvSV' and post['missed'] == 0:
+        if 'p' in ev and sc.last_x is not None:
+            ev['x'] = sc.last_x               # which member of the class "cut" / "svl" the packet stood for
+        if 'r' in ev and post['missed'] == 0:
             ev['r'] = 0                   # the callback did not run: the planned reaction is no part of the history
         self.schedule.append([who, dict(ev)])
         ev['post'] = post
@@ -333,6 +385,8 @@ class PairRun:
                 'main_after': self.main_after, 'schedule': self.schedule, 'which': which, 'at': at}
 
     def report_init(self, ctx):
+        report_faults(ctx, self.faults)
+        self.faults = []
         if self.init_diff:
             d, obs = self.init_diff
             finding(ctx, 'C18/SvsInst/Init/%s' % '+'.join(d),
@@ -404,7 +458,7 @@ class Cover:
                 # publications last: the own sequence number never goes back, and the states before
                 # it still have stimuli to try
                 return (self.ctx.rng.choice(sorted(self.todo[s])) if self.sample
-                        else min(self.todo[s], key=lambda k: ('"Publish"' in k, k)))
+                        else min(self.todo[s], key=lambda k: ('"Publish' in k, k)))
         seen = {s: None for s in curs}
         dq = deque(sorted(curs))
         while dq:
@@ -455,6 +509,7 @@ class Cover:
                       j0=st0['timer'] - int(round(self.sync * 0.9)))
         evs = []
         try:
+            report_faults(ctx, sc.init_faults)
             obs = sc.post()
             want = proj_state(st0)
             d0 = diff(obs, want, C18_FIELDS + SYNC_FIELDS)
@@ -492,6 +547,8 @@ class Cover:
                 obs = sc.apply(ev)
                 self.steps += 1
                 rec = dict(ev)
+                if 'p' in ev and sc.last_x is not None:
+                    rec['x'] = sc.last_x          # which member of the class "cut" / "svl" the packet stood for
                 rec['post'] = obs
                 evs.append(rec)
                 rs = raised_sig(rec)
@@ -499,8 +556,9 @@ class Cover:
                     finding(ctx, rs[0], rs[1], {'kind': 'trace', 'nodes': self.nodes, 'sup': self.sup, 'sync': self.sync,
                                                 'rstep': 32768, 'at': len(evs),
                                                 'rec': {'cfg': {'init': st0['selfSeq'], 't0': st0['timer']}, 'ev': list(evs)}})
+                pn = ev['n'] if ev['a'] == 'PublishThenRecv' else 0
                 exact = [(s, k) for (s, k) in cands
-                         if not diff(obs, proj_state(g.state[g.edges[s][k][2]], g.state[s]), C18_FIELDS + SYNC_FIELDS)]
+                         if not diff(obs, proj_state(g.state[g.edges[s][k][2]], g.state[s], pn), C18_FIELDS + SYNC_FIELDS)]
                 if not exact:
                     # no successor of the graph explains the observation: let the open specification decide.
                     # Edges of this stimulus that were taken before are not reliable ways to travel any more
@@ -545,7 +603,8 @@ def stage_b(ctx):
     for nodes, ms, pk, budget in confs:
         name = 'Svs_B_%d' % ms
         cfg = os.path.join(tlc.BUILD, name + '.cfg')
-        tlc.write_cfg(cfg, constants=consts(nodes, ms, pk, 'impl', ('aggLocal', 'noSeq'), 10, tick_ends=True, react=1),
+        tlc.write_cfg(cfg, constants=consts(nodes, ms, pk, 'impl', ALL_DEVS, 10, tick_ends=True, react=1, pre=1,
+                                            prepackets=ctx.pick('PacketsPre', pk)),
                       invariants=INVS, view='View')
         g = graph.dump('SvsMC', cfg, workers=ctx.pick(4, 8), tag=name)
         ctx.add_tlc('Svs impl graph nodes=3 MaxSeq=%d packets=%s deviations as alternative edges (%d edges)' % (
@@ -611,10 +670,12 @@ def _validate(ctx, recs, idx, nodes, dev, name, maxseq, env=None, count=True):
             f.write(json.dumps(r) + '\n')
     cfg = os.path.join(tlc.BUILD, 'SvsTrace_%d_%s.cfg' % (len(nodes), 'dev' if dev else 'pure'))
     tlc.write_cfg(cfg, spec='TSpec',
-                  constants=consts(nodes, maxseq, '{}', 'open', dev, 64, burst=3, hint=True, remember=True),
+                  constants=consts(nodes, maxseq, '{}', 'open', dev, 64, burst=3, hint=True, remember=True, pre=3),
                   invariants=['OwnEntry', 'SteadyForgets'],
+                  # (properties a named deviation violates are left to the actions: TLC would stop at the first one)
                   properties=['Monotone', 'OverclaimIgnored', 'PublishEmitsFullVector', 'EmitsOnlyLocal', 'HeardIsMerge',
-                              'OutdatedStartsSuppression', 'CallbackPublishEmits', 'Witnesses'],
+                              'OutdatedStartsSuppression', 'CallbackPublishEmits', 'Witnesses']
+                  + ([] if dev else ['PublishThenRecvMerges', 'PublishThenRecvAnnounces']),
                   constraints=['Mark'], postcondition='Post', view='TView')
     r, rejected = tlc.validate_traces('SvsTrace', cfg, tf, env=env, tag=name)
     if count:
@@ -640,7 +701,7 @@ def judge(ctx, recs, nodes, sup, sync, rstep, name, maxseq=70000, report=True, o
     bad = sorted((t - 1, l) for t, l in rej1.items())           # (trace index, first unexplained event)
     LAST_JUDGE['accepted'] = len(recs) - len(bad)
     if bad:
-        r2, rej2 = _validate(ctx, recs, [i for i, _ in bad], nodes, ('aggLocal', 'noSeq'), name + '-dev', maxseq)
+        r2, rej2 = _validate(ctx, recs, [i for i, _ in bad], nodes, ALL_DEVS, name + '-dev', maxseq)
         used = {}
         for t, l, c in re.findall(r'<<"DEVUSED", (\d+), (\d+), "(\w+)">>', r2.out):
             used.setdefault(int(t) - 1, set()).add((int(l), c))
@@ -655,18 +716,21 @@ def judge(ctx, recs, nodes, sup, sync, rstep, name, maxseq=70000, report=True, o
                 ll, c = cands[-1]
                 sig, what = DEV_SIG[c]
                 out.append({'trace': i, 'at': ll, 'dev': True, 'sig': sig, 'what': what})
-                first.setdefault(c, []).append((i, l2))
+                first.setdefault(c, []).append((i, l2, n))
             if l2 is not None:
                 unexplained.append((i, l2))
-        # pass 3: does an execution whose first deviation is c need the other deviation later on?
+        # pass 3: does an execution whose first deviation is c need another deviation later on? (the one pass 2
+        # used at the event where c alone gets stuck)
         for c, lst in sorted(first.items()):
-            other = [d for d in DEV_OF if d != c][0]
-            r3, rej3 = _validate(ctx, recs, [i for i, _ in lst], nodes, (DEV_OF[c],), name + '-dev1', maxseq)
-            for n, (i, l2) in enumerate(lst):
-                l3 = rej3.get(n + 1)
+            r3, rej3 = _validate(ctx, recs, [i for i, _, _ in lst], nodes, (DEV_OF[c],), name + '-dev1', maxseq)
+            for k, (i, l2, n) in enumerate(lst):
+                l3 = rej3.get(k + 1)
                 if l3 is not None and (l2 is None or l3 < l2):
-                    sig, what = DEV_SIG[other]
-                    out.append({'trace': i, 'at': l3, 'dev': True, 'sig': sig, 'what': what, 'earlier': 1})
+                    others = sorted({cc for ll, cc in used.get(n, ()) if ll == l3 and cc != c}) or \
+                        sorted(d for d in DEV_OF if d != c)
+                    for other in others:
+                        sig, what = DEV_SIG[other]
+                        out.append({'trace': i, 'at': l3, 'dev': True, 'sig': sig, 'what': what, 'earlier': 1})
         LAST_JUDGE['unexplained'] = len({i for i, _ in unexplained})
         if unexplained:
             # name the projection field: re-run the rejected prefixes with one field relaxed at a time
@@ -678,7 +742,7 @@ def judge(ctx, recs, nodes, sup, sync, rstep, name, maxseq=70000, report=True, o
                 ctx.note('%s: %d further rejected executions not diagnosed individually' % (name, dropped))
             fields = {}
             for fld in ('out', 'missed', 'local', 'state', 'timer', 'seq', 'ret', 'cbsaw'):
-                _, rej3 = _validate(ctx, recs, unexplained, nodes, ('aggLocal', 'noSeq'), name + '-diag', maxseq,
+                _, rej3 = _validate(ctx, recs, unexplained, nodes, ALL_DEVS, name + '-diag', maxseq,
                                     env={'SVS_RELAX': fld}, count=False)
                 for n, (i, l) in enumerate(unexplained):
                     if (n + 1) not in rej3:
@@ -690,7 +754,7 @@ def judge(ctx, recs, nodes, sup, sync, rstep, name, maxseq=70000, report=True, o
                 if ev is None:
                     sig, what = 'C18/SvsInst/trace/end', 'trace bookkeeping'
                 else:
-                    cls = packet_class(ev['p']) if ev['a'] == 'RecvSV' else pre
+                    cls = packet_class(ev['p']) if 'p' in ev else pre
                     obs = ''
                     if fl == 'out':
                         obs = '/emitted' if ev['post']['out'] else '/not-emitted'
@@ -719,7 +783,7 @@ def random_packet(rng, nodes, local, selfseq, base=0):
     me = nodes[0]
     x = rng.random()
     if x < 0.04:
-        return {'k': rng.choice(['empty', 'garbage', 'nowrapper', 'badname', 'unsigned', 'seqlen0', 'seqlen3']), 'es': []}
+        return {'k': rng.choice(['empty', 'garbage', 'nowrapper', 'badname', 'unsigned', 'seqlen0', 'seqlen3', 'cut', 'cut']), 'es': []}
     ids = [n for n in nodes if rng.random() < rng.choice([0.3, 0.6, 1.0])] or [rng.choice(nodes)]
     style = rng.choice(['newer', 'older', 'mixed', 'mixed', 'equal', 'random', 'restarted'])
     es = []
@@ -747,6 +811,9 @@ def random_packet(rng, nodes, local, selfseq, base=0):
                                                'seq': rng.choice([NOSEQ, rng.randint(0, top)])})
     elif x < 0.24 and es:                          # entry without sequence number
         es[rng.randrange(len(es))]['seq'] = NOSEQ
+    elif x > 0.94:                                 # a plain vector in a non-canonical encoding (non-minimal numbers, trailing octets)
+        rng.shuffle(es)
+        return {'k': 'svl', 'es': es}
     if rng.random() < 0.12:                        # a node named more than once (own node: 1 in 3), values around the local one
         for _ in range(rng.choice([1, 1, 2])):
             n = me if rng.random() < 0.34 else rng.choice([e['id'] for e in es if e['id'] not in (NOID, ROOTID)] or [me])
@@ -775,6 +842,11 @@ def random_event(rng, nodes, cur, njit, busy, timed=True, base=0, slots=None):
     x = rng.random()
     j = rng.randrange(njit)
     top = base + MAXSEQ_C
+    if timed and cur['seq'] + 5 <= top and rng.random() < 0.07:
+        # the application publishes in the very loop iteration in which the handler of a sync Interest then runs
+        # (before the timer task got to announce the publication): PublishThenRecv
+        return {'a': 'PublishThenRecv', 'n': rng.choice([1, 1, 1, 2, 3]), 'p': heard_packet(rng, nodes, cur, base, slots),
+                'j': j, 'r': rng.choice([0, 0, 0, 1, 1, 2])}
     if x < busy or (not timed and x < 0.75):
         return {'a': 'RecvSV', 'p': heard_packet(rng, nodes, cur, base, slots), 'j': j,
                 'r': rng.choice([0, 0, 0, 1, 1, 2]) if cur['seq'] + 2 <= top else 0}
@@ -817,11 +889,58 @@ def record_random(rng, nodes, n_events, sup, sync, rstep, njit):
     return pr
 
 
+def record_sweep(nodes, sup, sync, rstep, both):
+    """Every member of the byte-level packet classes, delivered to a real instance: "cut" (World.cuts: the encoding
+    of a vector cut at every octet, with the numbers of each kind also in their 3 / 5 / 9-octet forms) and "svl"
+    (World.lenient). Histories of 250 deliveries; the instance of every other history is in a suppression period
+    (both: every member in both situations). Expectation as for every recorded execution: SvsTrace."""
+    world = svskit.WORLD
+    items = [('cut', x) for x in range(world.members('cut'))] + [('svl', x) for x in range(world.members('svl'))]
+    plan = [(it, sup_ctx) for it in items for sup_ctx in ((False, True) if both else (None,))]
+    runs = []
+    for c0 in range(0, len(plan), 250):
+        chunk = plan[c0:c0 + 250]
+        in_sup = chunk[0][1] if both else (c0 // 250) % 2 == 1
+        pr = PairRun(nodes, sup, sync, rstep, False, None, {'init': 0, 't0': int(round(sync * 0.9))})
+        try:
+            pr.start_main()
+            seq = 0
+            pr.step('main', {'a': 'Publish', 'n': 1, 'j': 0})
+            for (k, x), want_sup in chunk:
+                want_sup = in_sup if want_sup is None else want_sup
+                st = pr.recs['main']['ev'][-1]['post']['state'] if pr.recs['main']['ev'] else 'Steady'
+                if want_sup and st == 'Steady':
+                    # an outdated vector (the own entry is behind) starts a suppression period
+                    pr.step('main', {'a': 'RecvSV', 'p': {'k': 'sv', 'es': [{'id': nodes[0], 'seq': 0}]}, 'j': 0, 'r': 0})
+                elif not want_sup and st == 'Suppress':
+                    pr.step('main', {'a': 'Publish', 'n': 1, 'j': 0})
+                if k == 'svl':
+                    seq += 1
+                    p = {'k': 'svl', 'es': [{'id': nodes[3], 'seq': seq}]}
+                else:
+                    p = {'k': k, 'es': []}
+                pr.step('main', {'a': 'RecvSV', 'p': p, 'j': 0, 'r': 0, 'x': x})
+        finally:
+            pr.close()
+        runs.append(pr)
+    return runs, len(items)
+
+
 def stage_c(ctx):
     n = ctx.pick(60, 1200)
     sup, sync, rstep, njit = 8, 40, 8192, 8
     recs, bgs, objs, n_init = [], [], [], 0
     precs, pobjs = [], []
+    sweep, n_members = record_sweep(NODES5, sup, sync, rstep, not ctx.quick)
+    for pr in sweep:
+        pr.report_init(ctx)
+        for who, at, sig, what in pr.raised:
+            finding(ctx, sig, what, pr.obj(who, at))
+        recs.append(pr.recs['main'])
+        objs.append(lambda at, pr=pr: pr.obj('main', at))
+        bgs += pr.bg
+    ctx.note('C: %d histories deliver each of the %d members of the byte-level classes "cut" / "svl" %s' % (
+        len(sweep), n_members, 'once' if ctx.quick else 'in Steady and in Suppress'))
     for i in range(n):
         pr = record_random(ctx.rng, NODES5, ctx.rng.randint(90, 110), sup, sync, rstep, njit)
         n_init += bool(pr.report_init(ctx))
@@ -882,7 +1001,9 @@ def run(ctx):
                 'happen in one instant')
     ctx.assumptions = ['appv2 delivers a validated sync Interest to the attached handler (C04/C05)',
                        'virtual-time loop is faithful to asyncio timer semantics; a packet and an expiry at the same '
-                       'instant are ordered packet-first or expiry-first, never inside one loop iteration',
+                       'instant are ordered packet-first or expiry-first; inside one loop iteration: publications and then '
+                       'the handler of a sync Interest, before the timer task runs (PublishThenRecv: the application '
+                       'publishes from a callback queued in front of the resumption of its validator)',
                        'a received vector that names a node more than once: it over-claims if any entry for the own '
                        'node does; otherwise C18 does not fix which of the contradicting entries counts (any one entry '
                        'per node, the same for local_sv and the suppression aggregate), nor whether it is taken at all',
@@ -905,6 +1026,16 @@ def replay(ctx, path):
         obj = json.load(f)
     if obj.get('kind') == 'pair':
         return replay_pair(ctx, obj)
+    if obj.get('kind') == 'init':
+        world = {'main': svskit.WORLD, 'sibling': svskit.SIBLING, 'peer': svskit.PEER}[obj['world']]
+        sc = Scenario(obj['nodes'], init_seq=obj['init'], world=world, reps=tuple(obj['reps']))
+        faults = sc.init_faults
+        sc.close()
+        for tail, what, _ in faults:
+            print('REPRODUCED: C18/SvsInst/Init/%s\n  %s' % (tail, what))
+        if not faults:
+            print('not reproduced: the instance was created and started, and kept its names')
+        return 1 if faults else 0
     if obj.get('kind') != 'trace':
         print(json.dumps(obj, indent=1)[:6000])
         return 0
